@@ -26,6 +26,9 @@ One row per (entry point or class-table slot) x (pointer-parameter position).
               (CMP_EQUAL for the NULL-ordering macros and comp slots); no variants where a non-pointer guard comes first
            R9 a one-line wrapper (the body after the entry guards is a single return handing the parameter unchanged to a function
               of the same file, directly or inside  X_ISNULL(...) ? FALSE : TRUE) inherits the callee's entry guard
+              further variants cross the NULL position with content classes of the OTHER arguments: nidx = index arguments, called
+              at the container's count and beyond it; hasempty = another argument has an empty / empty-accepting content class
+              (empty list, "" string, a pattern that accepts the empty string); haslist / retchars see NullGuard.tla
            R7 functions that cannot be called in the harness (NOT_CALLABLE: X11/Imlib2)    -> rows listed, never claimed
 Besides "rows" the JSON lists "no_pointer_parameters" (exported entry points with nothing to pair with NULL) and "excluded"
 (declared in include/ but not built in the pinned configuration), so that the header scan of checks/c16.py reports only
@@ -268,6 +271,10 @@ def main():
             short = member or f["name"][len(method_prefix):] if f["name"].startswith(method_prefix) else (member or f["name"])
             kinds = [int_kind(t, n) for t, n in f["params"]]
             nint, nsigned = sum(k is not None for k in kinds), sum(k == "s" for k in kinds)
+            bare = [re.sub(r'\b(register|const)\s+', '', t).strip() for t, n in f["params"]]
+            nidx = sum(t in ("spif_listidx_t", "spif_stridx_t", "spif_ustridx_t", "spif_memidx_t") for t in bare)
+            emptyable = any(t in ("spif_str_t", "spif_ustr_t", "spif_regexp_t", "spif_list_t", "spif_array_t", "spif_linked_list_t",
+                                  "spif_dlinked_list_t", "spif_charptr_t", "char *") for t in bare)
             pnames = [n for t, n in f["params"] if is_ptr(t)]
             # the first entry guard that names a pointer parameter: what an all-pointers-NULL call must hit (R8)
             first_guard = None          # (parameter name, failure class)
@@ -302,7 +309,7 @@ def main():
                     rows.append(dict(file=f["file"], owner=OWNER[f["file"]], func=f["name"], via=via, classvar=var, member=member, iface=iface,
                                      ret=f["ret"], params=f["params"], pos=i, pname=n, ptype=t, guard=g[0] if g else None,
                                      fail=None, claimed=False, why="R7 not callable in the harness: " + NOT_CALLABLE[f["name"]],
-                                     nint=0, nsigned=0, allnull=None, retchars=False, haslist=False))
+                                     nint=0, nsigned=0, allnull=None, retchars=False, haslist=False, nidx=0, hasempty=False))
                     continue
                 is_self = (i == 0 and n == "self" and is_method)
                 is_show = short == "show" or f["name"].endswith("_show")
@@ -328,6 +335,8 @@ def main():
                                  nint=nint if (claimed and not numeric_guard_first) else 0,
                                  nsigned=nsigned if (claimed and not numeric_guard_first) else 0,
                                  allnull=(first_guard[1] if (first_guard and first_guard[0] == n and claimed) else None),
+                                 nidx=nidx if (claimed and not numeric_guard_first) else 0,
+                                 hasempty=bool(claimed and emptyable and len(pnames) >= 2),
                                  retchars=bool(claimed and re.sub(r'\b(register|const)\s+', '', f["ret"]).strip() in ("spif_charptr_t", "char *")),
                                  haslist=bool(claimed and (iface == "listclass" or any(tt == "spif_list_t" for tt, nn in f["params"])))))
     rows.sort(key=lambda r: (FILES.index(r["file"][:-2]), r["via"], r["classvar"] or "", r["func"], r["pos"]))
@@ -351,9 +360,9 @@ def main():
         f.write("(* fail: failure value class; claimed: the property makes a claim about the row; guard: the pinned     *)\n")
         f.write("(* source's entry guard (\"none\" = no guard of its own).  NOT regenerated by the check.                 *)\n")
         f.write("Rows == <<\n")
-        f.write(",\n".join('  [id |-> %d, key |-> "%s", fail |-> "%s", claimed |-> %s, guard |-> "%s", nint |-> %d, nsigned |-> %d, allnull |-> "%s", retchars |-> %s, haslist |-> %s]' % (
+        f.write(",\n".join('  [id |-> %d, key |-> "%s", fail |-> "%s", claimed |-> %s, guard |-> "%s", nint |-> %d, nsigned |-> %d, allnull |-> "%s", retchars |-> %s, haslist |-> %s, nidx |-> %d, hasempty |-> %s]' % (
             r["id"], r["key"], r["fail"] or "NONE", "TRUE" if r["claimed"] else "FALSE", (r["guard"] or "none").split(" ")[0], r["nint"], r["nsigned"],
-            r["allnull"] or "NONE", "TRUE" if r["retchars"] else "FALSE", "TRUE" if r["haslist"] else "FALSE") for r in rows))
+            r["allnull"] or "NONE", "TRUE" if r["retchars"] else "FALSE", "TRUE" if r["haslist"] else "FALSE", r["nidx"], "TRUE" if r["hasempty"] else "FALSE") for r in rows))
         f.write("\n>>\n================================================================================\n")
     n = len(rows)
     c = sum(r["claimed"] for r in rows)
